@@ -63,8 +63,8 @@ def selectIndex (p : Profile) (sel : Str) : Outcome Nat :=
       | none => .err "sample_index must be one of the sample types"
 
 /-- `-sample_index=<sel>` / `si=<sel>`, then `Stacks()`. -/
-def stacksBySel (p : Profile) (sel : Str) : Outcome StackSet := do
+def stacksBySel (o : Opts) (p : Profile) (sel : Str) : Outcome StackSet := do
   let i ← selectIndex p sel
-  stacks p i
+  stacks o p i
 
 end PV.Stacks
